@@ -291,7 +291,8 @@ PROPS["C02"] = mux_prop(
     explanation="Five local contracts over the real MuxStream / Task code whose conjunction gives: bytes read = prefix of bytes written, per stream, in order, exactly once, no cross-talk.")
 
 PROPS["C03"] = mux_prop(
-    "C03", pick("c03_", "c02_w_plain", "c02_w_vec_1_2", extra=["c10_push_est_full", "c10_ack_est", "c04_threshold_con_recv", "c04_threshold_ack_recv"]), thorough_only={"c02_w_plain_l3"},
+    "C03", pick("c03_", "c02_w_plain", "c02_w_vec_1_2", extra=["c10_push_est_full", "c10_ack_est", "c04_threshold_con_recv", "c04_threshold_ack_recv", "c07_accept",
+                                                                "c12_race_ack_w0", "c12_race_ack_w1", "c12_race_ack_w2", "c12_race_ack_w3", "c12_race_ack_w6"]), thorough_only={"c02_w_plain_l3"},
     note="one transition of the credit accounting invariant credit + in-flight + queued + consumed-unacked + acks-in-flight = rwnd",
     bounds=dict(windows="symbolic u32", thresholds="symbolic u32 >= 1", counter="symbolic < threshold", queue="capacity 2"),
     outside=COMMON_OUTSIDE + ["the invariant over whole two-party runs is composed by hand from the per-transition checks (DESIGN.md 4-C03)"],
@@ -307,7 +308,8 @@ PROPS["C04"] = mux_prop(
     assumptions=[], explanation="The conditions under which the pinned tree deadlocked (threshold above the advertised window) as a solver query over all option values, plus the non-blocking steps progress relies on.")
 
 PROPS["C05"] = mux_prop(
-    "C05", pick("c05_", extra=["c02_w_plain_l0", "c02_w_plain_l1", "c02_w_vec_0_0", "c02_r_rem0_q0_cap1", "c02_r_rem0_q1_cap1", "c10_finish_est", "c10_finish_est_readclosed", "c06_peer_reset_app_view"]),
+    "C05", pick("c05_", extra=["c02_w_plain_l0", "c02_w_plain_l1", "c02_w_vec_0_0", "c02_r_rem0_q0_cap1", "c02_r_rem0_q1_cap1", "c10_finish_est", "c10_finish_est_readclosed", "c06_peer_reset_app_view",
+                               "c10_reset_est", "c10_reset_est_full", "c06_local_drop"]),
     thorough_only={"c02_w_vec_0_0"},
     note="end-of-stream only when the sender is gone and the queue is drained; empty writes; shutdown once; BrokenPipe afterwards",
     bounds=dict(writes="0,1 bytes plain and vectored-empty", queue="0..2 frames"), outside=COMMON_OUTSIDE,
@@ -369,6 +371,17 @@ PROPS["C13"] = mux_prop(
     assumptions=["the local side honours the AsyncBufRead/AsyncWrite contracts (unconsumed data is returned again; a Pending result keeps the waker)"],
     explanation="Exactly the bytes consumed from the local side go into one Push (in order, one credit); bytes written to the local side are a prefix of the peer's data; EOF on either side becomes Finish / shutdown; any error of either side completes the same poll with an error; a Pending result always leaves the bridge's waker with some callee (no orphan Pending).")
 
+PROPS["C08"] = mux_prop(
+    "C08", pick("c08_", extra=["c15_teardown", "c02_s_sink_pending", "c02_s_sink_error", "c06_local_drop"]),
+    extra_unwindset=[(r"schedule_ping_task", 3), (r"wind_down", 4)],
+    note="wind_down from a table with one flow of every kind, queued frames and a frame still in flight; the transport's behaviour chosen by the solver",
+    bounds=dict(flows="one Established (one frame delivered, symbolic credit), one Requested, one BindRequested", outbound="2 queued frames", in_flight="0 or 1 Push still in the source",
+                transport="sink ready or failing, close Ok or failing, source ending with None or with an error; separately: keepalive (1 s, 1 s) on a source that stays silent for ever"),
+    outside=["PARTIAL: the cut is placed at the granularity of the connection task's steps (after the select), not at every instruction inside tokio", "a blocked writer / reader registered on another thread at the moment of the cut (their wake-up is C12 / the channel contract)",
+             "a peer that never answers our Close after a LOCAL drop on an otherwise healthy transport (the drain loop then waits for it: by design)"],
+    assumptions=["the Task object is dropped when its future completes (as `start(self)` does)"],
+    explanation="After the connection ends every flow is gone, reads return delivered data (including frames still in flight) then EOF, writes fail with BrokenPipe, pending open/bind requests resolve (None / false), later API calls report Closed; on a local drop the queued frames reach the sink in order before close; after a keepalive timeout on a silent transport the task completes instead of waiting for the peer.")
+
 PROPS["C15"] = mux_prop(
     "C15", pick("c15_", extra=["c10_bind_disabled_absent", "c10_bind_enabled_absent", "c10_finish_bindreq", "c10_reset_bindreq", "c10_ack_bindreq", "c07_id_alloc"]),
     note="requester with another bind pending and answers in the other order; responder accept / reject / drop; teardown",
@@ -383,10 +396,25 @@ NOT_APPLICABLE = {
     "C01": "end-to-end behaviour over real TCP/UDP/Unix sockets, the tokio multi-thread runtime, hyper and the rusty-penguin binary crate (rustls/aws-lc FFI in its closure): none of it can be compiled by Kani or encoded by hand within reach; its codec-level ingredients are decided under C02, C09, C11, C13, C18",
     "C17": "certificate-path validation, name matching and client-certificate verification happen inside rustls/webpki/aws-lc-rs (C and assembly behind FFI); the repository's part is a four-arm match that only has meaning through those libraries — nothing a solver can encode",
 }
-for _p in ["C08", "C14"]:
+for _p in []:
     NOT_APPLICABLE.setdefault(_p, WIP)
 
+# properties decided by another engine than the Kani driver: id -> (engine, quick, thorough)
+EXTRA_CHECKS = {"C14": ("gate-smt", "./check C14 --tier quick", "./check C14 --tier thorough")}
+
 MANIFEST_TEXT = {
+    "C08": dict(
+        design_ref="DESIGN.md §4-C08",
+        level_text="PARTIAL. Bounded model checking of the real wind_down (and of the whole connection task for the keepalive case) with a scripted transport: from a table holding an established flow with delivered data, a pending open and a pending bind, with frames queued and one frame possibly still in flight, and for every solver-chosen behaviour of the transport (sink ready/failing, close ok/failing, source ending or failing), the task completes; afterwards no flow remains, reads return everything delivered then EOF, writes fail with BrokenPipe, the pending open resolves and the pending bind is answered false, later API calls report Closed, and after a local drop the queued frames were handed to the sink in order before close. A keepalive timeout on a transport that stays silent must end the task (the pinned tree waited for the dead peer forever).",
+        level_note="Cuts are placed between steps of the connection task, not inside tokio; pending operations are represented by their channel ends. Trusted: the mux models (see C02).",
+    ),
+    "C14": dict(
+        engine="gate-smt",
+        technique="source-to-SMT translation of the gate (regex-level extraction of the guards from the current service.rs), equivalence with the specification decided by z3 and cvc5 (must agree), sat models replayed against the real hyper Service",
+        design_ref="DESIGN.md §4-C14",
+        level_text="The upgrade gate lives in the rusty-penguin crate, which Kani cannot compile (hyper, rustls, aws-lc). Its decision logic is a straight-line sequence of guards over header lookups, so it is extracted from the CURRENT service.rs (State::call routing, ws_handler guards, the header_matches! macro, the header constants) into boolean atoms and decided by z3 and cvc5: the implementation upgrades iff GET, PSK absent-or-equal, key present and the four headers equal ignoring case; without an upgradable connection it never upgrades; every non-upgrade exit is the same call as the unknown-path route with the request unmodified; /ws is the only path that reaches the gate and obfs sends /health and /version to the unknown-path route; the 101 response carries the three fixed headers and the accept value computed from the request's key. Any construct outside the extraction grammar yields INCONCLUSIVE, never a verdict; a sat model is turned into a concrete request and replayed against the real State service before it is reported.",
+        level_note="Conditional claim: trusted are the extraction grammar (checked against every construct it meets), HeaderMap::get semantics (first value), and the repository's own test vector test for the SHA-1/base64 accept value (hashing is not a solver target). Header variants (case change, near miss, duplicate, empty) are represented by the atoms present / equal-ignoring-case / equal-exactly.",
+    ),
     "C13": dict(
         design_ref="DESIGN.md §4-C13",
         level_text="Bounded model checking of the real CopyBidirectional over a real MuxStream and a local side whose every call result (fill_buf: Pending / 1-2 bytes / EOF / error; write: Pending / partial / error; flush, shutdown: Ok / Pending / error) is chosen by the solver: in one poll of each direction, the bytes put into the Push frame are exactly the bytes consumed from the local side, in order and for one unit of credit; the bytes written locally are a prefix of the peer's data; end-of-stream becomes Finish / shutdown; an error of either side completes that poll with an error (the pinned tree swallowed a read error that followed data and returned Pending with no waker); and a Pending result always leaves the waker with a callee.",
